@@ -39,6 +39,11 @@ CHECKS = {
             "hpwl covers every pin on its own axis; the incremental model recomputes every net of a moved cell and keeps bounds and value in step.",
             "Trusted: clang 14 front end; rules/orientation_spec.json (DEF semantics as documented in coloquinte.hpp). Not decided: equality over whole update histories; int overflow (C07).",
             "DESIGN.md 2/C09"),
+    "C04": ("exhaustive table extraction of the polarity/orientation functions, edge-dominance analysis of admission predicates and commits, witness-variable provenance",
+            "The orientation tables are decided exhaustively (50 cells) against the specification; every admission predicate of legalization and detailed placement "
+            "admits a (cell,row) pair only under an orientation-compatibility test of that pair; commits use only admitted candidates; orientation stores come from the row the cell is placed on; the checker rejects INVALID.",
+            "Trusted: clang 14 front end; rules/orientation_spec.json; the list of admission predicates in cqverif/rules/c04.py. Not decided: which admissible row is chosen.",
+            "DESIGN.md 2/C04"),
 }
 
 NOT_APPLICABLE = {
